@@ -80,9 +80,14 @@ def make_case(unit):
         # a mean next to the counts: the response carries valid counts, a difference has no
         # proportion there (NaN) although its terms' counts and its base are defined
         mset, numvar = ("mean",), g.num(N)
-    spec = sim.CubeSpec(facets, g.weights(N, wmode), mset, numvar)
+    w_ = g.weights(N, wmode)
+    if w_ is not None and not mset and len(facets) >= 2 and gen.stratum(ID, i, "sq", 3) == 0:
+        # squared weights ride along (requested for the pairwise tests): the std-err and MoE
+        # of a proportion keep the plain weighted base
+        mset = ("sq_weights",)
+    spec = sim.CubeSpec(facets, w_, mset, numvar)
     return {"template": template, "spec": sim.spec_to_dict(spec), "transforms": transforms,
-            "ins": ins}
+            "ins": ins, "mask_size": cases.mask_size_for(ID, i)}
 
 
 def check_case(case):
